@@ -29,7 +29,9 @@ Record world := {
   w_amodel : list (nat * nat);     (* agent location -> model id  (agent.model) *)
   w_fixed : list nat;              (* FixedAgents *)
   w_user : list (nat * Z * Z);     (* (cell location, name, value) *)
-  w_setpin : list bool             (* agent-set side -> an agent was created with its model (Agent._ids then holds the model for ever) *)
+  w_setpin : list bool;            (* agent-set side -> an agent was created with its model (Agent._ids then holds the model for ever) *)
+  w_xconn : list (nat * Z * nat);  (* hand-made connections (cell, key, target), Cell.connect after construction *)
+  w_ghost : list (nat * nat)       (* removed FixedAgents: (agent, cell its _mesa_cell still points to) *)
 }.
 
 Inductive wop :=
@@ -39,7 +41,8 @@ Inductive wop :=
 | Kill (s label : Z)
 | SetUser (s cell name v : Z)
 | SForget (s : Z)
-| DelEmpty (s : Z).
+| DelEmpty (s : Z)
+| Connect (s ci key cj : Z).      (* cells[ci].connect(cells[cj], <hand-made key>) *)
 
 Definition E_FIXED : Z := 6.
 
@@ -51,7 +54,7 @@ Fixpoint lookupn (a : nat) (l : list (nat * nat)) : option nat :=
 
 Definition with_st (w : world) (st : state) : world :=
   {| w_st := st; w_models := w_models w; w_grid := w_grid w; w_smodel := w_smodel w;
-     w_amodel := w_amodel w; w_fixed := w_fixed w; w_user := w_user w; w_setpin := w_setpin w |}.
+     w_amodel := w_amodel w; w_fixed := w_fixed w; w_user := w_user w; w_setpin := w_setpin w; w_xconn := w_xconn w; w_ghost := w_ghost w |}.
 
 Definition side_of (w : world) (s : Z) : option side := nth_side (st_sides (w_st w)) s.
 Definition tab_of (w : world) (s : Z) : list (Z * nat) :=
@@ -63,10 +66,42 @@ Definition placed (h : heap) (a : nat) : bool :=
   match a_cell (geta h a) with Some _ => true | None => false end.
 
 (* a placed FixedAgent refuses every change of its cell *)
+Definition is_ghost (w : world) (a : nat) : bool := existsb (fun g => Nat.eqb (fst g) a) (w_ghost w).
+
+(* a FixedAgent whose _mesa_cell is set - placed, or removed with the pointer left behind - refuses every change *)
 Definition fixed_guard (w : world) (s label : Z) : bool :=
   match assoc label (tab_of w s) with
-  | Some a => memn a (w_fixed w) && placed (st_heap (w_st w)) a
+  | Some a => memn a (w_fixed w) && (placed (st_heap (w_st w)) a || is_ghost w a)
   | None => false
+  end.
+
+Definition HANDMADE : Z := 900.   (* keys >= 900 are hand-made connection keys *)
+
+Fixpoint xconn_get (c : nat) (key : Z) (l : list (nat * Z * nat)) : option nat :=
+  match l with
+  | [] => None
+  | e :: t => if Nat.eqb (fst (fst e)) c && (snd (fst e) =? key) then Some (snd e) else xconn_get c key t
+  end.
+
+Fixpoint xconn_set (c : nat) (key : Z) (tgt : nat) (l : list (nat * Z * nat)) : list (nat * Z * nat) :=
+  match l with
+  | [] => [(c, key, tgt)]
+  | e :: t => if Nat.eqb (fst (fst e)) c && (snd (fst e) =? key) then (c, key, tgt) :: t else e :: xconn_set c key tgt t
+  end.
+
+(* move_relative along a hand-made connection: the index of the target cell *)
+Definition xconn_target (w : world) (s label key : Z) : option Z :=
+  match side_of w s, assoc label (tab_of w s) with
+  | Some sd, Some a =>
+      match a_cell (geta (st_heap (w_st w)) a) with
+      | Some cur =>
+          match xconn_get cur key (w_xconn w) with
+          | Some tgt => option_map Z.of_nat (index_of tgt (s_cells (sd_space sd)))
+          | None => None
+          end
+      | None => None
+      end
+  | _, _ => None
   end.
 
 (* Agent.__init__ -> model.register_agent: agents created by an operation are appended to the registry *)
@@ -76,12 +111,12 @@ Definition register (w : world) (s : Z) (news : list nat) : world :=
   | Some m =>
       {| w_st := w_st w; w_models := upd m (fun r => r ++ news) (w_models w); w_grid := w_grid w;
          w_smodel := w_smodel w; w_amodel := w_amodel w ++ map (fun a => (a, m)) news;
-         w_fixed := w_fixed w; w_user := w_user w; w_setpin := w_setpin w |}
+         w_fixed := w_fixed w; w_user := w_user w; w_setpin := w_setpin w; w_xconn := w_xconn w; w_ghost := w_ghost w |}
   end.
 
 Definition set_pins (w : world) (pins : list bool) : world :=
   {| w_st := w_st w; w_models := w_models w; w_grid := w_grid w; w_smodel := w_smodel w;
-     w_amodel := w_amodel w; w_fixed := w_fixed w; w_user := w_user w; w_setpin := pins |}.
+     w_amodel := w_amodel w; w_fixed := w_fixed w; w_user := w_user w; w_setpin := pins; w_xconn := w_xconn w; w_ghost := w_ghost w |}.
 
 Definition inner_step (w : world) (o : op) : world * list nat * list Z :=
   let s := op_side o in
@@ -97,7 +132,7 @@ Definition inner_step (w : world) (o : op) : world * list nat * list Z :=
 
 Definition mark_fixed (w : world) (news : list nat) : world :=
   {| w_st := w_st w; w_models := w_models w; w_grid := w_grid w; w_smodel := w_smodel w;
-     w_amodel := w_amodel w; w_fixed := w_fixed w ++ news; w_user := w_user w; w_setpin := w_setpin w |}.
+     w_amodel := w_amodel w; w_fixed := w_fixed w ++ news; w_user := w_user w; w_setpin := w_setpin w; w_xconn := w_xconn w; w_ghost := w_ghost w |}.
 
 (* ------------------------------------------------------------------ copying the space / the model *)
 Definition user_of (w : world) (c : nat) : list (nat * Z * Z) :=
@@ -140,7 +175,7 @@ Definition wcopy (w : world) (src root : Z) : world * list Z :=
           w_smodel := w_smodel w ++ [mid];
           w_amodel := w_amodel w ++ map (fun la => (snd la, mid)) tab2;
           w_fixed := w_fixed w ++ new_fixed;
-          w_user := w_user w ++ new_user; w_setpin := w_setpin w |}, [0])
+          w_user := w_user w ++ new_user; w_setpin := w_setpin w; w_xconn := w_xconn w; w_ghost := w_ghost w |}, [0])
   | _, _ => (w, NOOP)
   end.
 
@@ -159,9 +194,15 @@ Definition del_empty_side (h : heap) (sd : side) : heap * side :=
 Definition wstep (w : world) (o : wop) : world * list Z :=
   match o with
   | Inner (Copy _ _) => (w, NOOP)
-  | Inner (Move s label _ as o') | Inner (Leave s label as o') | Inner (RelMove s label _ as o') =>
+  | Inner (Move s label _ as o') | Inner (Leave s label as o') =>
       if fixed_guard w s label then (w, [-1; E_FIXED])
       else let '(w', _, r) := inner_step w o' in (w', r)
+  | Inner (RelMove s label key as o') =>
+      if fixed_guard w s label then (w, [-1; E_FIXED])
+      else match xconn_target w s label key with
+           | Some idx => let '(w', _, r) := inner_step w (Move s label idx) in (w', r)
+           | None => let '(w', _, r) := inner_step w o' in (w', r)
+           end
   | Inner o' => let '(w', _, r) := inner_step w o' in (w', r)
   | WCopy _ src root => wcopy w src root
   | PlaceFixed s label ci =>
@@ -173,12 +214,17 @@ Definition wstep (w : world) (o : wop) : world * list Z :=
   | Kill s label =>
       match assoc label (tab_of w s), model_of w s with
       | Some a, Some m =>
-          if memn a (w_fixed w) || negb (memn a (nth m (w_models w) [])) then (w, NOOP)
+          if negb (memn a (nth m (w_models w) [])) then (w, NOOP)
           else
+            (* CellAgent.remove: deregister, cell = None.  FixedAgent.remove: deregister, cell.remove_agent(self) - the
+               agent's _mesa_cell keeps pointing to the cell (recorded as a ghost pointer) *)
+            let ghost := if memn a (w_fixed w)
+                         then match a_cell (geta (st_heap (w_st w)) a) with Some c => [(a, c)] | None => [] end
+                         else [] in
             let '(w', _, _) := inner_step w (Leave s label) in
             ({| w_st := w_st w'; w_models := upd m (remove_first a) (w_models w'); w_grid := w_grid w';
                 w_smodel := w_smodel w'; w_amodel := w_amodel w'; w_fixed := w_fixed w'; w_user := w_user w';
-                w_setpin := w_setpin w' |}, [0])
+                w_setpin := w_setpin w'; w_xconn := w_xconn w'; w_ghost := w_ghost w' ++ ghost |}, [0])
       | _, _ => (w, NOOP)
       end
   | SetUser s ci name v =>
@@ -191,7 +237,7 @@ Definition wstep (w : world) (o : wop) : world * list Z :=
           | Some c =>
               ({| w_st := w_st w; w_models := w_models w; w_grid := w_grid w; w_smodel := w_smodel w;
                   w_amodel := w_amodel w; w_fixed := w_fixed w; w_user := set_user c name v (w_user w);
-                  w_setpin := w_setpin w |}, [0])
+                  w_setpin := w_setpin w; w_xconn := w_xconn w; w_ghost := w_ghost w |}, [0])
           end
       end
   | SForget s =>
@@ -202,6 +248,19 @@ Definition wstep (w : world) (o : wop) : world * list Z :=
              model's registry keeps its agents: only the members of a side whose model never created an agent can go *)
           if nth (Z.to_nat s) (w_setpin w) true then (w, NOOP)
           else (with_st w (with_set (w_st w) (st_heap (w_st w)) s {| ss_members := []; ss_tab := [] |}), [0])
+      end
+  | Connect s ci key cj =>
+      match side_of w s with
+      | None => (w, NOOP)
+      | Some sd =>
+          if (ci <? 0) || (cj <? 0) || (key <? HANDMADE) then (w, NOOP) else
+          match nth_error (s_cells (sd_space sd)) (Z.to_nat ci), nth_error (s_cells (sd_space sd)) (Z.to_nat cj) with
+          | Some c1, Some c2 =>
+              ({| w_st := w_st w; w_models := w_models w; w_grid := w_grid w; w_smodel := w_smodel w;
+                  w_amodel := w_amodel w; w_fixed := w_fixed w; w_user := w_user w; w_setpin := w_setpin w;
+                  w_xconn := xconn_set c1 key c2 (w_xconn w); w_ghost := w_ghost w |}, [0])
+          | _, _ => (w, NOOP)
+          end
       end
   | DelEmpty s =>
       match side_of w s with
@@ -215,6 +274,12 @@ Definition wstep (w : world) (o : wop) : world * list Z :=
   end.
 
 (* ------------------------------------------------------------------ observation *)
+Fixpoint xghost (l : list (nat * nat)) (a : nat) : option nat :=
+  match l with
+  | [] => None
+  | (a', c) :: t => if Nat.eqb a a' then Some c else xghost t a
+  end.
+
 Definition user_code (w : world) (c : nat) (name : Z) : Z :=
   match filter (fun e => Nat.eqb (fst (fst e)) c && (snd (fst e) =? name)) (w_user w) with
   | e :: _ => snd e
@@ -231,7 +296,14 @@ Definition world_side_view (w : world) (k : nat) (sd : side) : list Z :=
   (- (300 + Z.of_nat k)) :: map (fun a => a_label (geta h a)) (nth m (w_models w) [])
   ++ (-6) :: map (fun a => b2z (memn a (w_fixed w))) (agents_of h cells)
   ++ (-5) :: [b2z ptr_ok; b2z grid_ok]
-  ++ (-4) :: flat_map (fun c => [user_code w c 10; user_code w c 11]) cells.
+  ++ (-4) :: flat_map (fun c => [user_code w c 10; user_code w c 11]) cells
+  ++ (-3) :: flat_map (fun c => flat_map (fun e => if Nat.eqb (fst (fst e)) c
+                                                    then [idx_code cells c; snd (fst e); idx_code cells (snd e)] else [])
+                                         (w_xconn w)) cells
+  ++ (-2) :: flat_map (fun la => match xghost (w_ghost w) (snd la) with
+                                 | Some c => [fst la; idx_code cells c]
+                                 | None => []
+                                 end) (sd_tab sd).
 
 Fixpoint nodupn (l : list nat) : bool :=
   match l with [] => true | x :: t => negb (memn x t) && nodupn t end.
@@ -259,6 +331,6 @@ Definition init_world (c : case) : world :=
      w_grid := if c_space c then [O] else [];
      w_smodel := if c_space c then [O] else [];
      w_amodel := []; w_fixed := []; w_user := [];
-     w_setpin := if c_space c then [] else [true] |}.
+     w_setpin := if c_space c then [] else [true]; w_xconn := []; w_ghost := [] |}.
 
 Definition run_world (c : wcase) : list (list Z) := wrun_ops (init_world (wc_case c)) (wc_ops c).
